@@ -38,6 +38,10 @@ def lwl_post(ctx):
         I, lambda I_, data, m: I_.call(I_.getattr(m, "log_weighted_likelihood"), [data], {}),
         lambda: ([G.mk_data(), G.mk_gmm(I)], {}), G.spec_log_weighted_likelihood, G.facts(), "C01.lwl.post.method")
     out += cl
+    # integer-typed samples: same value, nothing computed in the samples' own integer dtype
+    I = new_interp()
+    out += K.check_function(I, "gmm.log_weighted_likelihood", lambda: ([G.mk_data(intdata=True), G.mk_gmm(I)], {}),
+                            G.spec_log_weighted_likelihood, G.facts(), "C01.lwl.post.intdata", state_names={1: "machine"})
     defs = [c for c in out if c.name.endswith(".def")]
     post = [c for c in out if not c.name.endswith(".def")]
     return collapse(post, "C01.lwl.post", "result[c,s] == log w_c - 1/2(D log 2pi + Σ_d log v_cd + Σ_d (x_sd-mu_cd)^2/v_cd), all C,D,N") + \
